@@ -2106,7 +2106,17 @@ class Interp:
             if n.get('cond') is not None:
                 c = self.truth(self.eval(n['cond']), n)
                 if isinstance(c, Cond):
-                    self.hooks.symbolic_loop(self, n, c)
+                    if type(self.hooks).symbolic_loop is not Hooks.symbolic_loop:
+                        self.hooks.symbolic_loop(self, n, c)
+                        return
+                    # a data-dependent exit (`k<n && !found`): the remaining iterations are `if(cond){ body; inc; loop }`,
+                    # unrolled until the condition becomes decidable (bounded)
+                    depth = n.get('_depth', 0)
+                    if depth > 16:
+                        raise Unsupported('loop with a data-dependent condition does not settle within 16 iterations at %s' % self.loc(n))
+                    tail = {'k': 'ForStmt', 'cond': n['cond'], 'body': n['body'], 'inc': n.get('inc'), 'l': n.get('l'), '_depth': depth + 1}
+                    body = [n['body']] + ([n['inc']] if n.get('inc') is not None else []) + [tail]
+                    self.exec_if({'k': 'IfStmt', 'cond': n['cond'], 'then': {'k': 'CompoundStmt', 'c': body, 'l': n.get('l')}, 'l': n.get('l')})
                     return
                 if not c:
                     break
